@@ -181,6 +181,17 @@ func (r *regRunner) payloadAnys(ev *regEv) (*codectypes.Any, *codectypes.Any, ui
 		csAny = &codectypes.Any{TypeUrl: csAny.TypeUrl, Value: []byte{0xff, 0xff, 0xff, 0x07, 0x01}}
 	case "wrongkind": // a consensus state where a client state belongs
 		csAny = consAny
+	case "mixedcons": // client state of the requested type, consensus state of the type the stored client has
+		ctx := r.a.GetContext()
+		if stored, ok := r.a.App.TIBCKeeper.ClientKeeper.GetClientState(ctx, r.real[ev.Name]); ok {
+			st := map[string]string{exported.Tendermint: "tm", exported.BSC: "bsc", exported.ETH: "eth"}[stored.ClientType()]
+			if st != "" && st != ev.Ctype {
+				_, cons2 := r.clientPayload(ev.Name, st)
+				if consAny, err = clienttypes.PackConsensusState(cons2); err != nil {
+					r.t.Fatal(err)
+				}
+			}
+		}
 	default:
 		r.t.Fatalf("unknown payload class %q", ev.Payload)
 	}
